@@ -3,6 +3,7 @@ EXTENDS Grouped, Json
 V1 == { <<>> }
 V2 == { <<>>, <<0>> }
 E1 == { <<0, 1, 2>> }
+E3 == { <<0, 1, 2>>, <<1, 2>> }           \* the second vector leaves pairs of equal sequences outside every bin
 E2 == { <<0, 1, 2>>, <<0, 2>>, <<1, 2, 3>> }
 EmitCase == Done => PrintT(ToJson([fn |-> fn, tab |-> tab, opt |-> opt, kept |-> kept, res |-> res]))
 =============================================================================
